@@ -189,9 +189,10 @@ func (r Condition) SetOperator(op Operator) Condition {
 }
 
 func (r *condition) setOperator(op Operator) {
-	if op == nil {
-		// a nil Operator is rejected; whatever
-		// was set previously remains in place.
+	if isNilOperator(op) {
+		// a nil Operator (merely typed or not) is
+		// rejected; whatever was set previously
+		// remains in place.
 		return
 	}
 
